@@ -3,7 +3,7 @@ from lib import cpucheck
 PROP = "C01"
 def run(tier, seed):
     return cpucheck.run(PROP, tier, seed, cpucheck.std_gen(None, per_quick=3, per_thorough=1000),
-                        search_lines=cpucheck.std_gen(None, per_quick=12, per_thorough=40),
+                        search_lines=cpucheck.join_gens(cpucheck.std_gen(None, per_quick=12, per_thorough=40), cpucheck.sweep_gen()),
                         rule="all 1,784 dispatch cases of the seven decode tables x structured random pre-states (registers, flags, "
                              "pointers at/around 0x0000/0xFFFF, displacements, memory, port input); real code vs extracted generated model, all observables")
 def replay(path):
